@@ -471,7 +471,6 @@ func c18Parallel(r *rt.Rec, rng *rand.Rand, rounds int) {
 	}
 }
 
-
 // c18LongSession: one parser serves thousands of statements, most of them
 // rejected (truncations, replacements), some of them large; at intervals the
 // targets are parsed on it and must be accepted and understood as on a fresh
